@@ -440,17 +440,22 @@ Proof.
     + eapply gr_trans; [|apply gr_rel_scan; cbn [mt zero_slot set_job set_jobs set_pl]; rewrite PD; lia].
       apply gr_nojobs; [repeat split|reflexivity|reflexivity|cbn; apply upd_length|cbn [mt set_pl]; rewrite PD; lia].
   - (* CInitBuf *)
-    match type of H with (if _ then Some (set_cpc _ ?x) else _) = _ => set (s1 := x) in * end.
+    match type of H with Some (set_cpc _ ?x) = _ => set (s1 := x) in * end.
     assert (S1 : SInv cfg s1).
     { destruct S as [JD SLP CZ LZ1 LZ2]. constructor; cbn [mt sr ws cl s1 set_sr set_mt c_pc done next s_next]; try (rewrite Epc; discriminate).
       - intros i (X & Y). cbn in X, Y. lia.
       - intros t x Hx Px. exfalso. destruct (k_wrk _ _ K t x Hx) as (i & (X & Y) & _); [rewrite Px; reflexivity|]. lia. }
-    destruct (ldm (mt s)); inv_some H.
-    + eapply sinv_gr; [exact K'|exact S1| |reflexivity]. apply gr_same; [repeat split|reflexivity|reflexivity|reflexivity].
-    + eapply sinv_gr; [exact K'|exact S1|apply gr_finish_op|apply nz_finish_op].
+    inv_some H.
+    eapply sinv_gr; [exact K'|exact S1| |reflexivity]. apply gr_same; [repeat split|reflexivity|reflexivity|reflexivity].
   - (* CInitSeq *)
-    inv_some H. eapply sinv_gr; [exact K'| |apply gr_finish_op|apply nz_finish_op].
-    eapply sinv_ext; [..|exact S]; try reflexivity. right. rewrite Epc. reflexivity.
+    destruct (ldm (mt s)); inv_some H.
+    + eapply sinv_gr; [exact K'| |apply gr_finish_op|apply nz_finish_op].
+      eapply sinv_ext; [..|exact S]; try reflexivity. right. rewrite Epc. reflexivity.
+    + (* no LDM: serial.nextJobID is reset here; no pool thread holds a job *)
+      eapply sinv_gr; [exact K'| |apply gr_finish_op|apply nz_finish_op].
+      destruct S as [JD SLP CZ LZ1 LZ2]. constructor; cbn [mt sr ws cl set_sr set_pl c_pc s_next s_lw]; try (rewrite Epc; discriminate).
+      * intros i Hi. apply JD. exact Hi.
+      * intros t x Hx Px. exfalso. destruct (k_wrk _ _ K t x Hx) as (i & (X & Y) & _); [rewrite Px; reflexivity|]. lia.
 Qed.
 
 (* ------------------------------------------------------------------ *)
